@@ -104,3 +104,19 @@ func c19Mid() state.ClusterState {
 	st.OpsMCP = &state.OpsMCPState{Enabled: false, Credentials: []state.OpsMCPCredential{}}
 	return st
 }
+
+// c19Tiny encodes shorter than every other fixture (no node names, short ids and addresses).
+func c19Tiny() state.ClusterState {
+	st := c19Small()
+	st.ClusterID = "wk"
+	st.Config.DefaultCapacityWeight = 0
+	for i := range st.Nodes {
+		st.Nodes[i].Name = ""
+		st.Nodes[i].Addr = "a" + string(rune('0'+st.Nodes[i].NodeID))
+		st.Nodes[i].CapacityWeight = 1
+	}
+	for i := range st.Controllers {
+		st.Controllers[i].Addr = "a" + string(rune('0'+st.Controllers[i].NodeID))
+	}
+	return st
+}
